@@ -198,9 +198,23 @@ class Codec:
         self.bid[bid] = v
 
     def tool(self, t):
+        import re
+        m = re.fullmatch(r"tl-(\d+)", t) if isinstance(t, str) else None
+        if m:
+            return int(m.group(1))
         if t not in self.tools:
-            self.tools[t] = len(self.tools)
+            self.tools[t] = 1000 + len(self.tools)
         return self.tools[t]
+
+    def labels_sx(self):
+        """(std labels) ((pre in post) per machine) (agv labels) - the numbers N of the ids b-N"""
+        def num(b):
+            return str(int(b.split("-")[1]))
+        i = self.instance
+        return "((%s) (%s) (%s))" % (" ".join(num(b.id) for b in i.buffers),
+                                      " ".join("(%s %s %s)" % (num(m.prebuffer.id), num(m.buffer.id), num(m.postbuffer.id))
+                                               for m in i.machines),
+                                      " ".join(num(t.buffer.id) for t in i.transports))
 
     def tcfg(self, c):
         if isinstance(c, self.DT):
